@@ -19,6 +19,7 @@ from tools.gen import bytecode as gen_bytecode
 from tools.gen import marsh as gen_marsh
 from tools.gen import vmaccess as gen_vm
 from tools.gen import pegaccess as gen_peg
+from tools.gen import unmarsh as gen_unmarsh
 from tools.gen.csrc import ExtractError
 
 from vlib import build as vbuild
@@ -27,7 +28,10 @@ THEOREMS = ["JanetModel.Props.C10." + t for t in (
     "tables_consistent", "no_bad_rows", "verify_sound", "verify_entry", "fiber_image_wf_of_all_checks", "fiber_image_wf_partial",
     "function_image_wf_of_all_checks", "function_image_wf_partial", "env_untrusted_checked_of_all_checks",
     "witness_fiber_frame0", "witness_function_env_count", "witness_def_env_index", "peg_verify_sound_of_consistent")] + [
-    "JanetModel.Bytecode.verify_sound_generic", "JanetModel.PegVerify.peg_verify_sound_generic"]
+    "JanetModel.Bytecode.verify_sound_generic", "JanetModel.PegVerify.peg_verify_sound_generic",
+    "JanetModel.Props.C10.unmarshal_total_inbounds_of_sites_ok", "JanetModel.Props.C10.unmarshal_terminates_of_sites_ok",
+    "JanetModel.Props.C10.witness_missing_check_over_reads"]
+BYTES_OBLIGATIONS = ["JanetModel.Unmarsh.BytesObligations." + t for t in ("sites_ok", "unmarshal_total_inbounds", "unmarshal_terminates")]
 PEG_OBLIGATIONS = ["JanetModel.PegVerify.Obligations." + t for t in ("peg_tables_consistent", "peg_verify_sound")]
 IMAGE_OBLIGATIONS = ["JanetModel.Unmarsh.Obligations." + t for t in ("image_checks_present", "fiber_image_wf", "function_image_wf", "env_untrusted_checked")]
 # witness image -> the check (Gen/ImageChecks.lean field) whose presence must reject it
@@ -285,6 +289,59 @@ def gen_inputs(ctx, ig, base, ops, lb, quick, pegrows=None):
     return cases
 
 
+
+# ------------------------------------------------------------------------------------------------ byte-level model
+# error tag of the Lean model (Unmarsh/Bytes.lean `Err`) -> the C message it stands for (text before the first format)
+ERR_MESSAGES = {
+    "eos": "unexpected end of source", "badInt": "expected integer, got byte ", "negInt": "expected integer >= 0, got ",
+    "bad64": "invalid 64 bit integer", "unknownByte": "unknown byte ", "stack": "stack overflow", "badRef": "invalid reference ",
+    "badEnvRef": "invalid funcenv reference ", "badDefRef": "invalid funcdef reference ", "defBusy": "funcdef reference ",
+    "typ": "expected type ", "envLen": "invalid funcenv length", "slots": "funcdef has too many slots",
+    "envIdx": "invalid funcdef environment index ", "symmap": "corrupted symbolmap when unmarshalling debug info",
+    "verify": "funcdef has invalid bytecode", "fnEnvs": "invalid function - too many environments",
+    "fnIncomplete": "invalid function - funcdef is not complete", "fnEnvCount": "invalid function - expected ",
+    "fbSetup": "fiber has incorrect stack setup", "frIncomplete": "fiber stackframe has incomplete function",
+    "frSize": "fiber stackframe size mismatch", "frPc": "fiber stackframe has invalid pc", "frCall": "fiber stackframe is not suspended at a call",
+    "frAlign": "fiber stackframe does not align with previous frame", "frEntrance": "fiber bottom stackframe is not an entrance frame",
+    "fbFrames": "fiber has too many stackframes", "fbCycle": "fiber child chain is cyclic", "fbStatus": "invalid fiber status",
+    "fbNoFrames": "fiber has no stack frames but is not dead", "fbOperand": "fiber is suspended at an instruction that cannot receive a value",
+    "fbLast": "fiber is suspended at the last instruction", "unsafePtr": "unsafe flag not given, will not", "absUnknown": "unknown abstract type",
+    "absNoHook": "invalid abstract type - no unmarshal function pointer", "absSafe": "can", "absThreaded": "threaded abstracts not supported", "chanCount": "invalid negative channel count",
+    "pegSize": "invalid peg size", "pegBad": "invalid peg bytecode"}
+
+
+def errclass_prefix(msg):
+    """harness/C10/fuzz.c errclass() applied to the constant head of a message"""
+    out, words = [], 0
+    for ch in msg:
+        if ch == " ":
+            words += 1
+            if words >= 4:
+                break
+            out.append("_")
+        elif ch.isalpha() and ch.isascii() or ch == "-":
+            out.append(ch)
+    return "".join(out)
+
+
+def compare_bytes_model(model_line, impl_line):
+    """None when the byte-level model and the real unmarshal agree, else a short reason"""
+    if impl_line is None:
+        return None          # the process died on this input: reported by the crash triage
+    m, i = model_line.split(), impl_line.split()
+    if not m or not i:
+        return "empty"
+    if m[0] == "acc":
+        return None if i == m else "model %s / real %s" % (model_line, impl_line)
+    if m[0] == "rej":
+        if i[0] != "rej":
+            return "model %s / real %s" % (model_line, impl_line)
+        want = errclass_prefix(ERR_MESSAGES.get(m[1], "?" + m[1]))
+        got = i[1] if len(i) > 1 else ""
+        return None if got.startswith(want) else "model %s (%s) / real %s" % (model_line, want, impl_line)
+    return "model %s / real %s" % (model_line, impl_line)
+
+
 # ------------------------------------------------------------------------------------------------ witnesses
 def witness_images(ig, lb, ops):
     """the three image shapes whose rejection the full well-formedness theorems need (DESIGN section 4, items 9-11)"""
@@ -338,6 +395,7 @@ def run(ctx):
         ctx.gen("PegAccess.lean", gen_peg.render(tree))
         pops, pv, pu, pglob = gen_peg.extract(tree)
         pegrows = ig.PegRows(pops, pv, pu)
+        ctx.gen("UnmarshSites.lean", gen_unmarsh.render(tree))
     except ExtractError as e:
         broken.append("translator: %s" % e)
         ctx.broken.append(broken[-1])
@@ -358,6 +416,8 @@ def run(ctx):
     broken += img_broken
     peg_broken = ctx.obligations("JanetModel.PegVerify.Obligations", PEG_OBLIGATIONS)
     broken += peg_broken
+    bytes_broken = ctx.obligations("JanetModel.Unmarsh.BytesObligations", BYTES_OBLIGATIONS)
+    broken += bytes_broken
     if not quick and not broken:
         ok, log = ctx.leanchecker("JanetModel.Props.C10")
         if not ok:
@@ -537,6 +597,75 @@ def run(ctx):
             broken.append("correspondence PEG verifier model / peg_unmarshal: %d differing, first %r" % (len(pdiff), pdiff[0]))
             ctx.broken.append(broken[-1])
     ctx.say("peg model correspondence: %s" % json.dumps(pstats))
+    # (D4) byte-level model of the unmarshaller (Unmarsh/Bytes.lean, sites extracted from the current marsh.c) vs the real
+    # janet_unmarshal(bytes, len, 0, NULL, &next): accept / reject, error class, bytes consumed, type of the value - on the
+    # valid images, every truncation, substitutions, random bytes and the generated function / fiber / PEG images
+    bstats = {"compared": 0, "acc": 0, "rej": 0, "differ": 0, "model_oob": 0, "model_fuel": 0, "by_generator": {}, "model_reject_classes": {}}
+    bad_sites = []
+    if exe:
+        r = ctx.model(["umsites"], exe=exe)[0]
+        bad_sites = r.split()[1:] if r.startswith("bad") else []
+        for bs in bad_sites:
+            broken.append("unmarshal_total_inbounds: the MARSH_EOS test of read site %s of marsh.c is missing or does not cover the reads made under it" % bs)
+        brng = ctx.rng.fork("bytes-model")
+        pick = []
+        for i, c in enumerate(cases):
+            if not c[2].startswith("u "):
+                continue
+            if c[0] == "subst" and quick and not brng.chance(1, 4):
+                continue
+            pick.append(i)
+        mlines = ["m " + cases[i][2][2:] for i in pick]
+        mouts, mcrashes = run_parallel(hx, mlines)
+        mo = ctx.model([("um " + cases[i][2][2:]).strip() for i in pick], exe=exe)
+        bdiff, oob_inputs = [], []
+        for i, ml, io in zip(pick, mo, mouts):
+            g = bstats["by_generator"].setdefault(cases[i][0], 0)
+            bstats["by_generator"][cases[i][0]] = g + 1
+            if ml.startswith("oob"):
+                bstats["model_oob"] += 1
+                oob_inputs.append((len(cases[i][2]), i, ml))
+                continue
+            if ml.startswith("fuel"):
+                bstats["model_fuel"] += 1
+                bdiff.append({"input": cases[i][2], "model": ml, "impl": io})
+                continue
+            if io is None:
+                continue
+            bstats["compared"] += 1
+            if ml.startswith("acc"):
+                bstats["acc"] += 1
+            else:
+                bstats["rej"] += 1
+                k = ml.split()[1] if len(ml.split()) > 1 else "?"
+                bstats["model_reject_classes"][k] = bstats["model_reject_classes"].get(k, 0) + 1
+            why = compare_bytes_model(ml, io)
+            if why:
+                bstats["differ"] += 1
+                if len(bdiff) < 8:
+                    bdiff.append({"generator": cases[i][0], "mutation": cases[i][1], "input": cases[i][2], "why": why})
+        if bdiff:
+            broken.append("correspondence byte-level unmarshal model / janet_unmarshal: %d differing, first %r" % (bstats["differ"] + bstats["model_fuel"], bdiff[0]))
+            ctx.broken.append(broken[-1])
+        # the model answers `oob` exactly on the inputs that a missing / short test lets the C over-read: replay the shortest
+        # ones alone under ASan - that is the synthesised failing input for a broken `sites_ok`
+        oob_inputs.sort()
+        seen_sites = set()
+        for _, i, ml in oob_inputs:
+            if ml in seen_sites or len(seen_sites) >= 6:
+                continue
+            seen_sites.add(ml)
+            alone = confirm_alone(hx, cases[i][2])
+            if alone is not None:
+                sig = classify(alone[1], alone[2])
+                ctx.violation("read-site:" + sig, {"kind": "crash", "generator": "model-oob", "mutation": "%s -> model %s" % (cases[i][1], ml), "input": cases[i][2],
+                                                   "bad_sites": bad_sites, "rc": alone[1], "stderr": alone[2][-3000:]},
+                              what="input synthesised by the byte-level model (it answers `%s`): %s; read sites failing Sites.ok: %s" % (ml, sig, bad_sites))
+            else:
+                broken.append("byte-level model answers %s on %s but the implementation does not over-read it" % (ml, cases[i][2][:80]))
+        if oob_inputs and not bad_sites:
+            broken.append("byte-level model answered oob on %d inputs although every site passes Sites.ok" % len(oob_inputs))
+    ctx.say("byte-level model correspondence: %s" % json.dumps({k: v for k, v in bstats.items() if k != "model_reject_classes"}))
     resource_exits = {}
     reported = set()
     # triage crashes: group by signature, keep the shortest input per signature, confirm alone
@@ -598,7 +727,7 @@ def run(ctx):
                 "function/fiber is then called with 6 argument vectors / resumed, cancelled, stepped, iterated, printed, hashed, compared, re-marshalled and collected",
         "samples": [c[2][:80] for c in cases[:3]] + [c[2][:80] for c in cases[len(cases) // 2:len(cases) // 2 + 2]],
         "generators": stats, "accepted": acc_total, "reject_classes": dict(sorted(rej_classes.items(), key=lambda kv: -kv[1])[:25]),
-        "crash_signatures": {k: v[3] for k, v in by_sig.items()}, "fiber_model_correspondence": mstats, "peg_model_correspondence": pstats,
+        "crash_signatures": {k: v[3] for k, v in by_sig.items()}, "fiber_model_correspondence": mstats, "peg_model_correspondence": pstats, "bytes_model_correspondence": bstats, "bad_read_sites": bad_sites,
         "peg_bad_rows": [pegrows.name_of.get(o, o) for o in peg_bad] if pegrows is not None else None,
         "resource_exits_not_counted": resource_exits,
         "abstract_types_with_unmarshal": [a[0] for a in abs_types],
